@@ -70,3 +70,4 @@ claim("C19", "K20 K19", "Bounded check (family under test: strings <= 2 bytes, l
 claim("C26", "K11", "Unbounded proof (loop contracts, any input length) that every output byte of toxml is XML-safe and every output byte of fixInvalidChars is printable, plus loop-free proofs that the unit appended per input byte is exactly the XML entity / octal escape the rules require.", _NOTE)
 claim("C23", "K13 K15", "Unbounded proof of isValidGlobPattern safety/termination and loop-free proof of isSameParameters; bounded checks (labelled) that matchglob equals glob semantics for short strings and that Suppression::isSuppressed equals the documented decision table with matchglob / PathMatch::match / macro lookup as arbitrary oracles.", _NOTE)
 claim("C24", "K15", "Proof on the per-suppression predicates of getUnmatched{Local,Global,Inline}Suppressions (loop bodies as regions): a matched suppression is never reported, inline/non-inline split, local/global disjoint; with isMatch's contract: once isMatch returned true the suppression is reported by none of them. Only this half of the property is claimed.", _NOTE)
+claim("C30", "K18", "Unbounded proof (loop contract) that the <valid>-expression gate isCompliantValidationExpression is memory-safe on every NUL-terminated string, terminates and rejects empty strings and a leading '.'; its language is bracketed by the documented grammar for short strings (bounded, labelled).", _NOTE)
